@@ -97,6 +97,10 @@ Definition byte_at (d : list N) (i : N) : outcome N :=
   match nth_error d (N.to_nat i) with Some x => Val x | None => Panic 10%N end.
 Definition slice (d : list N) (len a b : N) : outcome (list N) :=
   if ((b <=? len) && (a <=? b))%N then Val (firstn (N.to_nat (b - a)) (skipn (N.to_nat a) d)) else Panic 11%N.
+(** &data[off..off+n] at the read cursor of from_bytes: [rest] is data[off..] (the loops only move forward), the bounds
+    check is the one of the Rust slice expression *)
+Definition take (rest : list N) (len off n : N) : outcome (list N * list N) :=
+  if (off + n <=? len)%N then Val (firstn (N.to_nat n) rest, skipn (N.to_nat n) rest) else Panic 11%N.
 (** u16::from_be_bytes([data[off], data[off+1]]) as usize *)
 Definition u16_at (d : list N) (off : N) : outcome N :=
   obind (byte_at d off) (fun hi => obind (byte_at d (off + 1)) (fun lo => Val (hi * 256 + lo)%N)).
@@ -129,17 +133,21 @@ Section VEnc.
       | None => Err E_ENC
       end.
 
-  (** rsa_decrypt_with_label(ciphertext, label, sk) *)
-  Definition rsa_decrypt_with_label (c label : list N) (sk : SK) : outcome (list N) :=
+  (** rsa_decrypt_with_label(ciphertext, label, sk); [li] is label_int(label).mod_inverse(n), a function of
+      (label, sk) only, which [decrypt] below evaluates once for all slots *)
+  Definition rsa_decrypt_with_inv (li : option Z) (c : list N) (sk : SK) : outcome (list N) :=
     match rsa_dec sk c with
     | None => Err E_DEC
     | Some pt =>
       let n := sk_n sk in
-      match mod_inverse (label_int label) n with
+      match li with
       | None => Err E_INVALID_LABEL
       | Some li => if n =? 0 then Panic 1%N else Val (bu_to_be ((bu_from_be pt * li) mod n))
       end
     end.
+  Definition label_inv (label : list N) (sk : SK) : option Z := mod_inverse (label_int label) (sk_n sk).
+  Definition rsa_decrypt_with_label (c label : list N) (sk : SK) : outcome (list N) :=
+    rsa_decrypt_with_inv (label_inv label sk) c sk.
 
   (** decode_scalar (after F2): longer than the scalar width -> None; left-pad; canonical value *)
   Definition decode_scalar (b : list N) : option Z :=
@@ -224,34 +232,34 @@ Section VEnc.
 
   (** ciphertext -> scalar, as both halves of a slot are treated in [decrypt]:
       any failure (RSA, label inverse, length, non-canonical value) skips the slot *)
-  Definition dec_scalar (sk : SK) (label c : list N) : outcome (option Z) :=
-    match rsa_decrypt_with_label c label sk with
+  Definition dec_scalar (sk : SK) (li : option Z) (c : list N) : outcome (option Z) :=
+    match rsa_decrypt_with_inv li c sk with
     | Val m => Val (decode_scalar m)
     | Err _ => Val None
     | Panic s => Panic s
     end.
 
-  Fixpoint decrypt_slots (Q : G) (sk : SK) (label : list N) (ps : list slot) : outcome Z :=
+  Fixpoint decrypt_slots (Q : G) (sk : SK) (li : option Z) (ps : list slot) : outcome Z :=
     match ps with
     | [] => Err E_DEC
     | pr :: rest =>
-      obind (dec_scalar sk label (s_encr pr)) (fun ro =>
+      obind (dec_scalar sk li (s_encr pr)) (fun ro =>
       match ro with
-      | None => decrypt_slots Q sk label rest
+      | None => decrypt_slots Q sk li rest
       | Some r =>
-        obind (dec_scalar sk label (s_encxr pr)) (fun xro =>
+        obind (dec_scalar sk li (s_encxr pr)) (fun xro =>
         match xro with
-        | None => decrypt_slots Q sk label rest
+        | None => decrypt_slots Q sk li rest
         | Some xr =>
           let x := (xr - r) mod q in
-          if g_eqb O (g_smul O x (g_gen O)) Q then Val x else decrypt_slots Q sk label rest
+          if g_eqb O (g_smul O x (g_gen O)) Q then Val x else decrypt_slots Q sk li rest
         end)
       end)
     end.
 
   Definition decrypt (p : vproof) (Q : G) (sk : SK) (label : list N) : outcome Z :=
     if negb (length (vp_slots p) =? vp_sp p)%nat then Err E_VERIFICATION
-    else decrypt_slots Q sk label (vp_slots p).
+    else decrypt_slots Q sk (label_inv label sk) (vp_slots p).
 
   (** to_bytes: self.proofs[0] panics on an empty proof list *)
   Definition to_bytes (p : vproof) : outcome (list N) :=
@@ -263,33 +271,34 @@ Section VEnc.
            ++ flat_map slot_bytes (vp_slots p) ++ flat_map repr (vp_opens p))
     end.
 
-  (** from_bytes: the "Read proofs" loop; returns the slots and the final offset *)
-  Fixpoint read_slots (d : list N) (len : N) (cnt : nat) (off gsz esz : N) : outcome (list slot * N) :=
+  (** from_bytes: the "Read proofs" loop; [rest] = data[off..]; returns the slots, the final offset and data[off'..] *)
+  Fixpoint read_slots (rest : list N) (len : N) (cnt : nat) (off gsz esz : N)
+    : outcome (list slot * (N * list N)) :=
     match cnt with
-    | 0%nat => Val ([], off)
+    | 0%nat => Val ([], (off, rest))
     | S c =>
       if (len <? off + (gsz + 2 * esz))%N then Err (E_SERDE 7)
       else
-        obind (slice d len off (off + gsz)) (fun gr =>
-        if negb (length gr =? psize)%nat then Panic 12%N     (* copy_from_slice length mismatch *)
+        obind (take rest len off gsz) (fun gr =>
+        if negb (length (fst gr) =? psize)%nat then Panic 12%N     (* copy_from_slice length mismatch *)
         else
-        obind (slice d len (off + gsz) (off + gsz + esz)) (fun exr =>
-        obind (slice d len (off + gsz + esz) (off + gsz + esz + esz)) (fun er =>
-        obind (read_slots d len c (off + gsz + esz + esz) gsz esz) (fun so =>
-        Val ({| s_gr := gr; s_encxr := exr; s_encr := er |} :: fst so, snd so)))))
+        obind (take (snd gr) len (off + gsz) esz) (fun exr =>
+        obind (take (snd exr) len (off + gsz + esz) esz) (fun er =>
+        obind (read_slots (snd er) len c (off + gsz + esz + esz) gsz esz) (fun so =>
+        Val ({| s_gr := fst gr; s_encxr := fst exr; s_encr := fst er |} :: fst so, snd so)))))
     end.
 
   (** the "Read open scalars" loop *)
-  Fixpoint read_scalars (d : list N) (len : N) (cnt : nat) (off : N) : outcome (list Z) :=
+  Fixpoint read_scalars (rest : list N) (len : N) (cnt : nat) (off : N) : outcome (list Z) :=
     match cnt with
     | 0%nat => Val []
     | S c =>
       if (len <? off + N.of_nat SCALAR_SIZE)%N then Err (E_SERDE 8)
       else
-        obind (slice d len off (off + N.of_nat SCALAR_SIZE)) (fun b =>
-        match decode_scalar b with
+        obind (take rest len off (N.of_nat SCALAR_SIZE)) (fun b =>
+        match decode_scalar (fst b) with
         | None => Err (E_SERDE 9)
-        | Some s => obind (read_scalars d len c (off + N.of_nat SCALAR_SIZE)) (fun rest => Val (s :: rest))
+        | Some s => obind (read_scalars (snd b) len c (off + N.of_nat SCALAR_SIZE)) (fun rs => Val (s :: rs))
         end)
     end.
 
@@ -313,7 +322,7 @@ Section VEnc.
         else if negb (num =? sp)%N then Err (E_SERDE 5)
         else if negb (remaining mod (proof_size + scalar_size) =? 0)%N then Err (E_SERDE 6)
         else
-          obind (read_slots d len (N.to_nat num) 40 g_r_size enc_size) (fun so =>
-          obind (read_scalars d len (N.to_nat num) (snd so)) (fun opens =>
+          obind (read_slots (skipn 40 d) len (N.to_nat num) 40 g_r_size enc_size) (fun so =>
+          obind (read_scalars (snd (snd so)) len (N.to_nat num) (fst (snd so))) (fun opens =>
           Val {| vp_seed := seed; vp_slots := fst so; vp_opens := opens; vp_sp := N.to_nat sp |}))))))).
 End VEnc.
